@@ -379,6 +379,9 @@ func BinOp(op string, l, r Val) (Val, error) {
 		if l.K == VString || r.K == VString {
 			ls, ok1 := concatText(l)
 			rs, ok2 := concatText(r)
+			if l.K == VBool {
+				ok1 = false // bool + string: no page documents it and Go rejects it; not judged
+			}
 			if !ok1 || !ok2 {
 				return Val{}, ErrUnsupported // float/time rendering undocumented; bool on the left unsupported
 			}
@@ -432,7 +435,7 @@ func BinOp(op string, l, r Val) (Val, error) {
 		case "!=":
 			return BoolV(!(ok && c == 0)), nil
 		}
-		if !ok {
+		if !ok || l.K == VBool || l.K == VNil {
 			return Val{}, evalErr("%s on unordered %s, %s", op, l, r)
 		}
 		switch op {
